@@ -4,6 +4,7 @@
 #[global_allocator]
 static ALLOC: simcore::alloc::SimAlloc = simcore::alloc::SimAlloc;
 
+mod c26;
 mod c27;
 mod streams;
 
@@ -23,6 +24,7 @@ pub fn exh_index(total: u64) -> u64 {
 
 fn main() {
     let mut scs = Vec::new();
+    scs.extend(c26::scenarios());
     scs.extend(c27::scenarios());
     simcore::driver::main(scs, config_name());
 }
